@@ -1,5 +1,7 @@
 (** C14 - Proof combination, restriction and completion are exact (leaf-set level). *)
 From Utreexo Require Import Spec.Forest Proofs.AbstractModels.
+From Utreexo Require Import Spec.Forest Spec.Oracle Proofs.RefTheory.
+From Coq Require Import List Permutation.
 
 Theorem C14_union : forall (H : Type) (HO : ops H), ops_ok HO -> forall a b h,
   In h (unionH HO a b) <-> In h a \/ In h b.
@@ -10,3 +12,68 @@ Theorem C14_restriction_error_iff_uncovered : forall (H : Type) (HO : ops H), op
   forall have want, covered HO have want = true <-> (forall w, In w want -> In w have).
 Proof. exact covered_spec. Qed.
 Print Assumptions C14_restriction_error_iff_uncovered.
+
+(** ** merged from C14b.v *)
+
+Theorem C14_proof_coords_perm : forall (H : Type) (lay ts ts' : list (node H)),
+  Permutation ts ts' -> forall c, In c (proof_coords lay ts) <-> In c (proof_coords lay ts').
+Proof. exact proof_coords_perm. Qed.
+Print Assumptions C14_proof_coords_perm.
+
+Theorem C14_sortK_set_unique : forall (A : Type) (l1 l2 : list (N * A)),
+  NoDup (map fst l1) -> NoDup (map fst l2) -> (forall x, In x l1 <-> In x l2) ->
+  sortK l1 = sortK l2.
+Proof. exact @sortK_set_unique. Qed.
+Print Assumptions C14_sortK_set_unique.
+
+Theorem C14_canon_unique : forall (H : Type) (HO : ops H) (rows : nat) (lay ts ts' : list (node H)),
+  Permutation ts ts' -> pos_inj_on rows (proof_coords lay ts) ->
+  canon_proof_pos rows lay ts = canon_proof_pos rows lay ts' /\
+  canon_proof_hashes HO rows lay ts = canon_proof_hashes HO rows lay ts'.
+Proof. exact canon_unique. Qed.
+Print Assumptions C14_canon_unique.
+
+Theorem C14_exp_cached_perm : forall (H : Type) (HO : ops H), ops_ok HO ->
+  forall (c : ctx H) (set set' : list H),
+  Permutation set set' -> NoDup set ->
+  (forall x y, In x (clay c) -> In y (clay c) -> nleaf x = true -> nleaf y = true ->
+               npos (crows c) x = npos (crows c) y -> x = y) ->
+  exp_cached HO c set = exp_cached HO c set'.
+Proof. exact exp_cached_perm. Qed.
+Print Assumptions C14_exp_cached_perm.
+
+(** for the layout of an actual state the distinctness hypotheses are theorems *)
+Theorem C14_layout_npos_inj : forall (H : Type) (HO : ops H) (s : slots H) (x y : node H),
+  In x (layout HO s) -> In y (layout HO s) ->
+  npos (rows_of (num_leaves s)) x = npos (rows_of (num_leaves s)) y -> x = y.
+Proof. exact layout_npos_inj. Qed.
+Print Assumptions C14_layout_npos_inj.
+
+Theorem C14_proof_coords_pos_inj : forall (H : Type) (HO : ops H) (s : slots H) (ts : list (node H)),
+  (forall x, In x ts -> In x (layout HO s)) ->
+  pos_inj_on (rows_of (num_leaves s)) (proof_coords (layout HO s) ts).
+Proof. exact proof_coords_pos_inj. Qed.
+Print Assumptions C14_proof_coords_pos_inj.
+
+Theorem C14_canon_unique_state : forall (H : Type) (HO : ops H) (s : slots H) (ts ts' : list (node H)),
+  Permutation ts ts' -> (forall x, In x ts -> In x (layout HO s)) ->
+  canon_proof_pos (rows_of (num_leaves s)) (layout HO s) ts =
+    canon_proof_pos (rows_of (num_leaves s)) (layout HO s) ts' /\
+  canon_proof_hashes HO (rows_of (num_leaves s)) (layout HO s) ts =
+    canon_proof_hashes HO (rows_of (num_leaves s)) (layout HO s) ts'.
+Proof. exact canon_unique_state. Qed.
+Print Assumptions C14_canon_unique_state.
+
+Theorem C14_exp_cached_perm_state : forall (H : Type) (HO : ops H), ops_ok HO ->
+  forall (s : slots H) (set set' : list H),
+  Permutation set set' -> NoDup set ->
+  exp_cached HO (mk_ctx HO s) set = exp_cached HO (mk_ctx HO s) set'.
+Proof. exact exp_cached_perm_state. Qed.
+Print Assumptions C14_exp_cached_perm_state.
+
+Theorem C14_prove_perm : forall (H : Type) (HO : ops H), ops_ok HO ->
+  forall (s : slots H) (hs hs' : list H) (t : list N) (p : list H),
+  Permutation hs hs' -> prove HO s hs = Some (t, p) ->
+  exists t', prove HO s hs' = Some (t', p) /\ Permutation t t'.
+Proof. exact prove_perm. Qed.
+Print Assumptions C14_prove_perm.
